@@ -331,7 +331,11 @@ func mainCheck(args []string) int {
 		}
 		js, _ := json.MarshalIndent(info, "", " ")
 		os.WriteFile(rp, js, 0o644)
-		fmt.Printf("FAILED-OBLIGATION %s [%s] %s -> %s (%s)\n", o.Name, o.Kind, o.Desc, o.Result, o.Solver)
+		desc := o.Desc
+		if len(desc) > 160 && !*verbose {
+			desc = desc[:160] + "…"
+		}
+		fmt.Printf("FAILED-OBLIGATION %s [%s] %s -> %s (%s)\n", o.Name, o.Kind, desc, o.Result, o.Solver)
 		if *dump && o.Model != "" {
 			fmt.Println(firstLines(o.Model, 60))
 		}
